@@ -206,6 +206,17 @@ def instances(quick=True):
                     key2 = "(%s)" % ", ".join(tup2)
                     add("R9-flatten-flattened", bn, "%s then %s" % (key, key2),
                         with_map(base, partitioning={"Z": {key: ["flatten()"], key2: ["flatten()"]}}))
+                # ... on a level of the flattened rank after it was split by occupancy (both listing orders)
+                leader = sorted(t for t, rs in base["einsum"]["declaration"].items() if t != "Z" and all(x in rs for x in tup))
+                if leader:
+                    for stack in (["uniform_occupancy(%s.2)" % leader[0]], ["uniform_occupancy(%s.4)" % leader[0], "uniform_occupancy(%s.2)" % leader[0]]):
+                        for lvl in range(len(stack) + 1):
+                            for tup2 in (("%s%d" % (flat, lvl), r), (r, "%s%d" % (flat, lvl))):
+                                key2 = "(%s)" % ", ".join(tup2)
+                                add("R9-flatten-flattened", bn, "%s, %s: %s then %s" % (key, flat, stack, key2),
+                                    with_map(base, partitioning={"Z": {key: ["flatten()"], flat: stack, key2: ["flatten()"]}}))
+                                add("R9-flatten-flattened", bn, "%s first, %s, %s: %s" % (key2, key, flat, stack),
+                                    with_map(base, partitioning={"Z": {key2: ["flatten()"], key: ["flatten()"], flat: stack}}))
             # R11 shape split on the flattened rank
             for o in ("uniform_shape(2)", "nway_shape(2)"):
                 add("R11-shape-after-flatten", bn, "%s: [%s]" % (flat, o), with_map(base, partitioning={"Z": {key: ["flatten()"], flat: [o]}}))
